@@ -99,6 +99,14 @@ class IdentityEliminationPass(ir.passes.InPlacePass):
         ):
             return False
 
+        # Case 3b: The node output is a graph output and the input is defined in another
+        # (enclosing) graph - keep the node. A graph output must be produced inside the graph,
+        # and an outer-scope value cannot be renamed or owned by the subgraph.
+        if output_is_graph_output:
+            input_producer = input_value.producer()
+            if input_producer is None or input_producer.graph is not graph_like:
+                return False
+
         # Copy over shape/type if the output has more complete information
         input_value.shape = _merge_shapes(input_value.shape, output_value.shape)
         if input_value.type is None:
